@@ -223,7 +223,14 @@ def gen_case(rng):
                     t2 = t if r < 0.25 else rng.choice(CTYPE_VARIANTS[t]) if t in CTYPE_VARIANTS and r < 0.85 \
                         else rng.choice([0, 1, 5])
                     f0.append([rp, c if rng.random() < 0.85 else rng.randrange(len(CONTENTS)), t2])
-    return {"objs": objs, "files": files, "calls": calls, "S0": s0, "F0": f0, "override": rng.random() < 0.5}
+    # the same reader is used again: a second read_into() into another (empty, equal or different) receiver
+    r = rng.random()
+    s0b = [] if r < 0.4 else copy.deepcopy(s0) if r < 0.8 else [o for o in copy.deepcopy(s0) if rng.random() < 0.5]
+    r = rng.random()
+    f0b = [] if r < 0.45 else copy.deepcopy(f0) if r < 0.75 else \
+        [[n, rng.randrange(len(CONTENTS)), t] for n, _, t in f0]
+    return {"objs": objs, "files": files, "calls": calls, "S0": s0, "F0": f0, "override": rng.random() < 0.5,
+            "S0b": s0b, "F0b": f0b}
 
 
 # ------------------------------------------------------------------ SDK objects
@@ -461,6 +468,13 @@ def run_sdk(case):
     res = {"model": model, "S": S, "F": F, "S0": S0, "F0": F0, "S0_objs": {o.id: o for o in S0}}
     res["terms"] = (coq_list(coq_obj(model, o) for o in S), coq_list(coq_obj(model, o) for o in S0))
     res["F0_before"] = {n: (content_of(F0, n), F0.get_content_type(n)) for n in F0}
+    S0b = mk_store(model, case.get("S0b", []))
+    F0b = mk_files(case.get("F0b", []))
+    second = {"S0": S0b, "F0": F0b, "S0_objs": {o.id: o for o in S0b},
+              "F0_before": {n: (content_of(F0b, n), F0b.get_content_type(n)) for n in F0b},
+              "term": coq_list(coq_obj(model, o) for o in S0b)}
+    res["second"] = second
+    res["repeat"] = {"thumb": [], "core": []}
     obs = []
     buf = io.BytesIO()
     werr = None
@@ -514,18 +528,44 @@ def run_sdk(case):
                     for t in r.reader.get_related_parts_by_type(pn)[aasx.RELATIONSHIP_TYPE_AAS_SUPL]:
                         row += enc_str(t) + [-1]
                     obs.append(row)
-            cp = r.get_core_properties()
-            res["core"] = cp
+            def meta():
+                """get_core_properties() and get_thumbnail(): every call must answer like the first one"""
+                cp_, th_ = r.get_core_properties(), r.get_thumbnail()
+                res["repeat"]["core"].append(cp_)
+                res["repeat"]["thumb"].append(th_)
+                return cp_, th_
             has_core = bool(core_rels[__import__("pyecma376_2").RELATIONSHIP_TYPE_CORE_PROPERTIES])
-            obs.append([33, 1, core_index(cp)] if has_core else [33, 0])
-            th = r.get_thumbnail()
-            res["thumb"] = th
-            obs.append([34, 0] if th is None else [34, 1, CONTENTS.index(th) if th in CONTENTS else 99])
+
+            def meta_rows(cp_, th_):
+                return [[33, 1, core_index(cp_)] if has_core else [33, 0],
+                        [34, 0] if th_ is None else [34, 1, CONTENTS.index(th_) if th_ in CONTENTS else 99]]
+            cp, th = meta()
+            meta()                                             # twice before reading
+            res["core"], res["thumb"] = cp, th
+            prefix = list(obs)
+            obs.extend(meta_rows(cp, th))
             try:
                 ids = r.read_into(S0, F0, override_existing=case["override"])
                 res["ids"] = ids
             except Exception as e:
                 rerr = e
+            meta()                                             # after the first read
+            # the same reader again, into the second receiver
+            try:
+                second["ids"] = r.read_into(second["S0"], second["F0"], override_existing=case["override"])
+                second["rerr"] = None
+            except Exception as e:
+                second["rerr"] = e
+            second["core"], second["thumb"] = meta()           # and after the second read
+            obs2 = prefix + meta_rows(second["core"], second["thumb"])
+            if second["rerr"] is not None:
+                obs2.append([1, errcode(second["rerr"])])
+            else:
+                obs2.append([0])
+                obs2.append([30] + sorted(int(i[1:]) for i in second["ids"]))
+                obs2.extend(obj_row(model, o) for o in second["S0"])
+                obs2.extend(file_rows(second["F0"]))
+            second["obs"] = obs2
     except Exception as e:
         res["open_err"] = e
         res["obs"] = obs + [[98]]
@@ -782,6 +822,8 @@ def shrink_case(case, pred):
         yield c["files"]
         yield c["S0"]
         yield c["F0"]
+        yield c.setdefault("S0b", [])
+        yield c.setdefault("F0b", [])
         yield c["calls"]
         for o in c["objs"] + c["S0"]:
             if "tree" in o:
@@ -836,6 +878,40 @@ def case_term(case, res):
     return ("(" + ", ".join([res["terms"][0], coq_fops(case["files"]), coq_list(coq_call(c) for c in res["calls_eff"]),
                              res["terms"][1], coq_fops(case["F0"]), b,
                              coq_z(common.zhash_d(res["obs"], 2))]) + ")")
+
+
+def case_terms(case, res):
+    """one term per read_into(): the model reads the same package into the first and into the second receiver"""
+    ts = [case_term(case, res)]
+    sec = res.get("second")
+    if sec is not None and "obs" in sec:
+        b = "true" if case["override"] else "false"
+        ts.append("(" + ", ".join([res["terms"][0], coq_fops(case["files"]),
+                                   coq_list(coq_call(c) for c in res["calls_eff"]), sec["term"],
+                                   coq_fops(case.get("F0b", [])), b, coq_z(common.zhash_d(sec["obs"], 2))]) + ")")
+    return ts
+
+
+def oracle_all(case, res):
+    """the oracle on the first read, on the second read_into() of the same reader into the second receiver, and on
+    the repeated get_core_properties() / get_thumbnail() calls"""
+    fails = list(oracle(case, res))
+    sec = res.get("second")
+    if res["werr"] is None and "open_err" not in res and sec is not None and "obs" in sec:
+        res2 = dict(res)
+        res2.update({k: sec[k] for k in ("S0", "F0", "S0_objs", "F0_before", "rerr", "core", "thumb")})
+        res2["ids"] = sec.get("ids")
+        case2 = dict(case, S0=case.get("S0b", []), F0=case.get("F0b", []))
+        for sig, msg in oracle(case2, res2):
+            fails.append((sig, "second read_into() on the same reader: " + msg))
+        ths, cps = res["repeat"]["thumb"], res["repeat"]["core"]
+        if any(t != ths[0] for t in ths):
+            fails.append(("C08:thumbnail:changes-between-calls",
+                          f"get_thumbnail() answered {[None if t is None else len(t) for t in ths]} (None / length) on "
+                          f"consecutive calls of one reader"))
+        if any(vars(c) != vars(cps[0]) for c in cps):
+            fails.append(("C08:core-properties:change-between-calls", "get_core_properties() answers differ between calls"))
+    return fails
 
 
 PRELUDE = ("From Coq Require Import List ZArith String.\n"
@@ -917,10 +993,11 @@ def run(chk):
     for _ in range(ncases):
         cases.append(gen_case(rng))
     terms = []
+    owner = []       # index of the case a term belongs to
     reported = set()
     for k, case in enumerate(cases):
         res = run_sdk(case)
-        fails = oracle(case, res)
+        fails = oracle_all(case, res)
         chk.seen(case, nontrivial=res["werr"] is None and res.get("rerr") is None and bool(res.get("ids")))
         chk.count("payload=" + "/".join(sorted({("json" if (c[2] if c[0] == "aas" else c[3]) else "xml")
                                                 for c in case["calls"] if c[0] in ("aas", "objs")})))
@@ -949,11 +1026,13 @@ def run(chk):
             reported.add(sig)
 
             def still(c, sig=sig):
-                return any(s == sig for s, _ in oracle(c, run_sdk(c)))
+                return any(s == sig for s, _ in oracle_all(c, run_sdk(c)))
             small = shrink_case(case, still)
-            msg2 = next(m for s, m in oracle(small, run_sdk(small)) if s == sig)
+            msg2 = next(m for s, m in oracle_all(small, run_sdk(small)) if s == sig)
             chk.fail(sig, msg2, {"case": small, "how": "tools/c08.py: oracle(case, run_sdk(case))"})
-        terms.append(case_term(case, res))
+        for t in case_terms(case, res):
+            owner.append(k)
+            terms.append(t)
         if len(chk.samples) < 3 and res["werr"] is None and res.get("ids") and case["F0"]:
             chk.samples.append({"case": case, "sdk_observation_rows": len(res["obs"])})
     sterms = str_cases(rng, 600 if chk.tier == "quick" else 6000)
@@ -964,11 +1043,11 @@ def run(chk):
     for e in errs + errs2:
         chk.tie_broken("correspondence-run", e)
     if bad:
-        case = cases[bad[0]]
+        case = cases[owner[bad[0]]]
 
         def differs(c):
             r = run_sdk(c)
-            b, e = common.run_mismatch_shards("C08m", PRELUDE, [case_term(c, r)], "check_case")
+            b, e = common.run_mismatch_shards("C08m", PRELUDE, case_terms(c, r), "check_case")
             return bool(b) and not e
         small = shrink_case(case, differs) if len(bad) < 50 else case
         r = run_sdk(small)
@@ -999,7 +1078,9 @@ def run(chk):
                            "pre-populated with the package's own names and bytes under the same, a variant or another "
                            "content type), write_aas and/or write_aas_objects sessions (ids passed as list, tuple, set, "
                            "dict view, generator, iterator or a single Identifier) with core properties "
-                           "and thumbnail, empty or pre-populated receiving store/container, override on/off; "
+                           "and thumbnail, empty or pre-populated receiving store/container, override on/off; every reader is used "
+                           "again: get_core_properties()/get_thumbnail() twice before and once after each read, a second "
+                           "read_into() into another receiver (empty, equal or different); "
                            "non-trivial = written, read back and at least one object read; distinct by the whole case")
 
 
@@ -1009,7 +1090,7 @@ def replay(path):
     case = rp.get("case") or r.get("case")
     if case:
         res = run_sdk(case)
-        fails = oracle(case, res)
+        fails = oracle_all(case, res)
         print("write:", repr(res["werr"]), "read:", repr(res.get("rerr")))
         for f in fails:
             print("oracle:", f)
